@@ -181,7 +181,7 @@ impl Drop for Slots {
     }
 }
 
-pub const ARENA_BYTES: usize = 8192;
+pub const ARENA_BYTES: usize = 32768;
 /// canary zones before and after the arena proper, so that an overrun past either end of the
 /// callers' memory is seen as a stray write instead of corrupting the simulator's heap
 pub const GUARD: usize = 4096;
